@@ -98,7 +98,7 @@ Proof.
   intros Hrec r E. unfold rec_union in E. destruct (rec_members rec ts [] []) as [x|e] eqn:Em; cbn [bind] in E; [|discriminate E].
   pose proof (rec_members_inside rec n Hrec ts [] [] x (Forall_nil _) Em) as Hx.
   match type of E with (match ?l with _ => _ end) = _ => destruct l as [|a [|b l']] end; injection E as <-; cbn [snd];
-    try apply inside_ok; (apply inside_RE; [intros m [<-|[]]; apply nmark_in | exact Hx]).
+    try apply inside_ok; (apply inside_RE; [intros m [<-|[]]; apply nmark_in | first [exact Hx | constructor]]).
 Qed.
 
 Lemma lookup_all_in a ps v : In v (lookup_all a ps) -> exists k, In (k, v) ps.
@@ -224,7 +224,7 @@ Section main.
           -- destruct (ty_mem _ _); injection E as <-; [apply inside_ok | apply inside_leaf].
           -- injection E as <-. apply inside_leaf.
         * injection E as <-. apply inside_ok.
-      + assert (G : inside n (RE [nmark n] [] (snd own))) by (apply inside_RE; [intros m [<-|[]]; apply nmark_in | exact Hown]).
+      + assert (G : inside n (RE [nmark n] [] [])) by (apply inside_RE; [intros m [<-|[]]; apply nmark_in | constructor]).
         destruct (class_of_tag reg (ntag n)) as [kt|].
         * destruct (ty_mem _ _); injection E as <-; [apply inside_ok | exact G].
         * injection E as <-. exact G.
